@@ -13,12 +13,13 @@ PROPS = {
     "C10": {
         "modules": ["RtrProps.C10"],
         "theorems": [
-            "Rtr.C10.hashlin_inv", "Rtr.C10.hashlin_inv_init", "Rtr.C10.search_iff_mem",
+            "Rtr.C10.hashlin_inv", "Rtr.C10.hashlin_inv_init", "Rtr.C10.hashlin_inv_unfold", "Rtr.C10.search_iff_mem",
             "Rtr.C10.list_hash_same_elems",
             "Rtr.C10.add_refines", "Rtr.C10.remove_refines", "Rtr.C10.srcRemove_refines",
             "Rtr.C10.getAll_spec", "Rtr.C10.searchBySki_spec", "Rtr.C10.copyExcept_refines",
             "Rtr.C10.swap_refines", "Rtr.C10.notifyDiff_refines", "Rtr.C10.history_refines",
-            "Rtr.C10.spki_log_replays", "Rtr.C10.spki_log_exact", "Rtr.C10.notifyDiff_net",
+            "Rtr.C10.spki_log_replays", "Rtr.C10.spki_log_exact", "Rtr.C10.spki_log_steps", "Rtr.C10.notifyDiff_net",
+            "Rtr.C10.F9_unfixed_violates",
         ],
     },
 }
